@@ -791,6 +791,7 @@ package sse
 //@   invariant 0 parser_alive: p != nil && p.fieldScanner != nil && p.inputScanner != nil && !p.fieldScanner.keepComments
 //@   invariant 0 token_in_progress: ptokinv(p)
 //@   invariant 0 no_error_yielded_yet: forall(x, old(ncalls()), ncalls(), isyield(x) ==> yielderr(x) == nil && cret(x, "yield", 0))
+//@   invariant 0 data_buffer_holds_whole_lines: len(sb) == 0 || sb[len(sb)-1] == '\n'
 //@   invariant 0 retries_valid: forall(x, old(ncalls()), ncalls(), iscall(x, "onRetry") ==> carg(x, "onRetry", 0) >= 0)
 //@   step 0 data_appends_a_line: f.Name == "data" ==> eqbytes(sb, prev(sb) + f.Value + "\n")
 //@   step 0 data_keeps_the_rest: f.Name == "data" ==> typ == prev(typ) && lastEventID == prev(lastEventID) && dirty && ncalls() == prev(ncalls())
